@@ -587,6 +587,31 @@ Lemma ik_distinct_clocked : forall c0 h1 i src t h2 j h3 s outs a b,
   a < b.
 Proof. intros. eapply ik_distinct; eauto. eapply ik_clocked_quiet; eauto. Qed.
 
+(* creation times chosen by the submitter (a client whose clock is ahead, a bundle built for a
+   later time): the entry is kept by every cleaning whose clock has not passed t + window - in
+   particular by every cleaning while t is still ahead of the node's clock *)
+Lemma ik_distinct_ahead : forall h1 i src t h2 j h3 s outs a b,
+  ik_run ik_init (h1 ++ IkAssign i src t :: h2 ++ IkAssign j src t :: h3) = Some (s, outs) ->
+  ~ In IkRestart h2 ->
+  (forall now, In (IkClean now) h2 -> ik_window <= now /\ now < ik_two64 /\ now <= t + ik_window) ->
+  ik_seq_of s i = Some a -> ik_seq_of s j = Some b ->
+  a < b /\ (src, t, a) <> (src, t, b).
+Proof.
+  intros h1 i src t h2 j h3 s outs a b Hr Hn Hc Ha Hb.
+  eapply ik_distinct_ids; eauto.
+  unfold ik_quiet. rewrite Forall_forall. intros e He. destruct e; cbn; auto.
+  destruct (Hc _ He) as (H1 & H2 & H3). right. rewrite ik_threshold_small by assumption. lia.
+Qed.
+
+(* the threshold is exact: an entry of a non-zero time t survives the cleaning at clock now iff
+   now - window <= t *)
+Lemma ik_keep_exact : forall now e, ik_window <= now -> now < ik_two64 -> ike_time e <> 0 ->
+  ik_keep now e = true <-> now <= ike_time e + ik_window.
+Proof.
+  intros now e H1 H2 H3. unfold ik_keep, ik_epoch. rewrite ik_threshold_small by assumption.
+  apply N.eqb_neq in H3. rewrite H3. cbn [negb]. rewrite andb_true_r, negb_true_iff, N.ltb_ge. lia.
+Qed.
+
 Lemma ik_restart_refuted : exists h s outs i j src a b,
   ik_run ik_init h = Some (s, outs) /\ i <> j
   /\ ik_numbered s i src 0 a /\ ik_numbered s j src 0 b /\ a = b
